@@ -432,6 +432,13 @@ def run(ctx):
     # result code, not in a clean-up that trusts a counter bumped before the capacity test (shared with C05)
     importlib.import_module("rules.c05").counter_unchanged_on_refusal(db, rep, "D19-COUNTER-ON-REFUSAL")
     errno_cleared_before_judged(db, rep)
+    # "returns program objects that can be compiled ... safely": whatever size or offset the text declares, the compile returns.
+    # The two search-loop rules of C05 (shared): a loop that shifts by its induction variable, or searches the rotations of a
+    # value, bounds its steps.
+    import loops as _loops
+    _lib = [f for f in db.all_functions() if f.relfile.startswith("orc/")]
+    _loops.judge_shift_searches(db, _lib, rep, rule="D21-LOOP-SHIFT")
+    _loops.judge_rotation_searches(db, _lib, rep, rule="D21-LOOP-ROTATE")
 
     # ---- D16: "bad numbers ... reports each problem as an error record": every conversion of a token into a number looks at
     # how much of the token the conversion took
